@@ -268,6 +268,10 @@ struct Proc<'w> {
     txn: u64,
     returned: Vec<Returned>,
     store_calls_in_retry: u64,
+    /// coordinators of earlier moments (the crashed process, this process): source of the GENUINE token / grant of a
+    /// request that has moved on (the caller still holds it; the types are not Clone)
+    hist_ext: &'w [ExternalActionCoordinatorV1],
+    hist_own: Vec<ExternalActionCoordinatorV1>,
 }
 
 type Op = (String, String, String);
@@ -294,7 +298,7 @@ fn report_sig(r: &RecoveryScanReport) -> (usize, &'static str, Vec<u64>, Option<
 impl<'w> Proc<'w> {
     /// What a starting process does: open the store, take a fresh writer epoch at the recovered continuation, recover
     /// the coordinator.  `next_lsn` comes from the caller's (writable) recovery scan.
-    fn start(dir: &Path, names: &'w [String], scratch: &'w Scratch, salt: &str, next_lsn: u64) -> Result<Self, String> {
+    fn start(dir: &Path, names: &'w [String], scratch: &'w Scratch, salt: &str, next_lsn: u64, hist_ext: &'w [ExternalActionCoordinatorV1]) -> Result<Self, String> {
         let r = util::catch(|| -> Result<(FilesystemWalStore, WriterEpoch, ExternalActionCoordinatorV1), String> {
             let mut store = FilesystemWalStore::open(dir, WalSegmentId::from_raw(1)).map_err(|e| format!("open: {e:?}"))?;
             let epoch = store.acquire_fresh_writer_epoch(Lsn::from_raw(next_lsn)).map_err(|e| format!("acquire_fresh_writer_epoch: {e:?}"))?;
@@ -306,7 +310,7 @@ impl<'w> Proc<'w> {
             Ok(Err(e)) => return Err(e),
             Err(p) => return Err(format!("PANIC:{p}")),
         };
-        Ok(Self { names, scratch, store: RecStore { inner: store, marks: Vec::new() }, coord, epoch: epoch.epoch_id, salt: salt.to_string(), txn: 0, returned: Vec::new(), store_calls_in_retry: 0 })
+        Ok(Self { names, scratch, store: RecStore { inner: store, marks: Vec::new() }, coord, epoch: epoch.epoch_id, salt: salt.to_string(), txn: 0, returned: Vec::new(), store_calls_in_retry: 0, hist_ext, hist_own: Vec::new() })
     }
 
     fn ctx(&mut self, what: &str) -> ExternalActionTransactionContextV1 {
@@ -333,6 +337,27 @@ impl<'w> Proc<'w> {
     /// One API call with the authority a host holds: the one reconstructed from the (recovered) coordinator, or a
     /// foreign one when the coordinator has none.  Returns the result class.
     fn apply(&mut self, op: &Op) -> String {
+        let out = self.apply_inner(op);
+        self.hist_own.push(self.coord.clone());
+        out
+    }
+
+    fn held_token(&self, rq: &ExternalActionRequestV1) -> DurablyRecordedExternalActionRequestV1 {
+        let id = rq.request_id();
+        self.coord.recorded_request(id).ok()
+            .or_else(|| self.hist_own.iter().rev().find_map(|c| c.recorded_request(id).ok()))
+            .or_else(|| self.hist_ext.iter().rev().find_map(|c| c.recorded_request(id).ok()))
+            .unwrap_or_else(|| self.scratch.token(rq))
+    }
+    fn held_grant(&self, rq: &ExternalActionRequestV1) -> ExternalActionClaimGrantV1 {
+        let id = rq.request_id();
+        self.coord.claim_grant(id).ok()
+            .or_else(|| self.hist_own.iter().rev().find_map(|c| c.claim_grant(id).ok()))
+            .or_else(|| self.hist_ext.iter().rev().find_map(|c| c.claim_grant(id).ok()))
+            .unwrap_or_else(|| self.scratch.grant(rq))
+    }
+
+    fn apply_inner(&mut self, op: &Op) -> String {
         let (o, r, v) = (op.0.as_str(), op.1.as_str(), op.2.as_str());
         let rq = request_for(r);
         let id = rq.request_id();
@@ -350,7 +375,7 @@ impl<'w> Proc<'w> {
                 }
             }
             "claim" => {
-                let tok = self.coord.recorded_request(id).unwrap_or_else(|_| self.scratch.token(&rq));
+                let tok = self.held_token(&rq);
                 let auth = match registry().authorize(&rq, claim_args(v).0) {
                     Ok(a) => a,
                     Err(e) => return err_class(&e),
@@ -368,7 +393,7 @@ impl<'w> Proc<'w> {
                 }
             }
             "settle" => {
-                let grant = self.coord.claim_grant(id).unwrap_or_else(|_| self.scratch.grant(&rq));
+                let grant = self.held_grant(&rq);
                 let cand = self.candidate(r, v, &grant.claim());
                 let ctx = self.ctx("settle");
                 let (s, c) = (&mut self.store, &mut self.coord);
@@ -464,7 +489,7 @@ struct Live {
 fn live_run(root: &Path, names: &[String], scratch: &Scratch, ops: &[Op], salt: &str) -> Result<Live, String> {
     let dir = root.join("live");
     let _ = fs::remove_dir_all(&dir);
-    let mut p = Proc::start(&dir, names, scratch, salt, 0)?;
+    let mut p = Proc::start(&dir, names, scratch, salt, 0, &[])?;
     let mut lv = Live { seg: Vec::new(), bounds: Vec::new(), classes: Vec::new(), coords: vec![p.coord.clone()], posts: vec![postures(&p.coord, names)],
                         returned: vec![Vec::new()], files: vec![root_files(&dir)], violations: Vec::new() };
     for (k, op) in ops.iter().enumerate() {
@@ -627,7 +652,7 @@ fn crash_and_recover(root: &Path, names: &[String], scratch: &Scratch, lv: &Live
     }
     // ---- 4. new process: epoch + coordinator
     let next_lsn = w1.last_committed_lsn().map_or(0, |l| l.as_u64() + 1);
-    let mut p = match Proc::start(&dir, names, scratch, &format!("{salt}:post"), next_lsn) {
+    let mut p = match Proc::start(&dir, names, scratch, &format!("{salt}:post"), next_lsn, &lv.coords) {
         Ok(p) => p,
         Err(e) => {
             o.violations.push(("recover_after_repair_failed".into(), format!("cut {cut}: {e}")));
@@ -757,7 +782,7 @@ fn no_repair_probe(root: &Path, names: &[String], scratch: &Scratch, lv: &Live, 
             Err(e) => return format!("scan:{e}"),
         };
         let next = r.last_committed_lsn().map_or(0, |l| l.as_u64() + 1);
-        let mut p = match Proc::start(&dir, names, scratch, &format!("{salt}:nr"), next) {
+        let mut p = match Proc::start(&dir, names, scratch, &format!("{salt}:nr"), next, &lv.coords) {
             Ok(p) => p,
             Err(e) => return format!("start:{e}"),
         };
